@@ -8,6 +8,8 @@
 //!   cache handlers <dir> <ops> <limit-bytes> <tl> <threads>              method C at handler level (static.rs)
 //!   cache realclock                                                      a few paths on the unmodified clock, real sleeps
 //!   cache runseq   <limit> <tl> <unit>   stdin: JSON [[op,route#,host,size,id,d],...]  (replay of one case)
+//!   cache runseq   <limit> <tl> <unit> trace   stdin: one such JSON array per line; stdout: the observed histories
+//!                                              in the log format of `random` (input of the property judge Trace_CacheProp)
 //!
 //! Edge file: one JSON line per transition, written by TLC (MC_Cache.tla, EdgeOut):
 //!   [state, [op,route#,host,size,id,d], [hit,size,id,age], panicked, state, lookups]
@@ -339,6 +341,34 @@ fn run_checked(t: &Table, limit: usize, tl: usize, unit: usize, seq: &[OpA], che
     Ok((calls, gets))
 }
 
+/// A bounded, seeded sample of the mismatching operation sequences (the first ones and a reservoir of
+/// the rest): on a mismatch the driver lets TLC judge the observed histories against the property alone.
+struct Sample {
+    cap: usize,
+    seen: u64,
+    rng: Rng,
+    seqs: Vec<Vec<OpA>>,
+}
+impl Sample {
+    fn new(cap: usize, seed: u64) -> Self {
+        Sample { cap, seen: 0, rng: Rng::new(seed), seqs: vec![] }
+    }
+    fn offer(&mut self, seq: &[OpA]) {
+        self.seen += 1;
+        if self.seqs.len() < self.cap {
+            self.seqs.push(seq.to_vec());
+        } else {
+            let j = self.rng.below(self.seen as usize);
+            if j >= self.cap / 2 && j < self.cap {
+                self.seqs[j] = seq.to_vec();
+            }
+        }
+    }
+    fn json(samples: Vec<Sample>) -> Value {
+        json!(samples.into_iter().flat_map(|s| s.seqs.into_iter()).map(|q| q.iter().map(|o| o.json()).collect::<Vec<_>>()).collect::<Vec<_>>())
+    }
+}
+
 fn cmd_edges(args: &[String]) {
     let t = Arc::new(load_table(&args[0]));
     let limit: usize = args[1].parse().unwrap();
@@ -381,9 +411,13 @@ fn cmd_edges(args: &[String]) {
     let stats = Mutex::new((0u64, 0u64, 0u64, 0u64, 0u64, 0usize)); // edges, probes, calls, gets, nontrivial, maxpath
     let mism: Mutex<Vec<Value>> = Mutex::new(vec![]);
     let mism_count = AtomicU64::new(0);
+    let all_samples: Mutex<Vec<Sample>> = Mutex::new(vec![]);
     std::thread::scope(|sc| {
-        for _ in 0..threads {
-            sc.spawn(|| {
+        for thx in 0..threads {
+            let all_samples = &all_samples;
+            let (t, next_state, stats, mism, mism_count, path_to) = (&t, &next_state, &stats, &mism, &mism_count, &path_to);
+            sc.spawn(move || {
+                let sample = std::cell::RefCell::new(Sample::new(2000 / threads.max(1), seed_from_env() ^ thx as u64));
                 let (mut ne, mut np, mut nc, mut ng, mut nt, mut mp) = (0u64, 0u64, 0u64, 0u64, 0u64, 0usize);
                 loop {
                     let i = next_state.fetch_add(1, Ordering::SeqCst);
@@ -406,6 +440,7 @@ fn cmd_edges(args: &[String]) {
                             nt += 1;
                         }
                         let record = |m: Mismatch| {
+                            sample.borrow_mut().offer(&m.seq);
                             if mism_count.fetch_add(1, Ordering::SeqCst) < 10 {
                                 mism.lock().unwrap().push(m.json(limit, tl, unit));
                             }
@@ -438,6 +473,7 @@ fn cmd_edges(args: &[String]) {
                         }
                     }
                 }
+                all_samples.lock().unwrap().push(sample.into_inner());
                 let mut st = stats.lock().unwrap();
                 st.0 += ne;
                 st.1 += np;
@@ -456,7 +492,8 @@ fn cmd_edges(args: &[String]) {
     }
     out_line(&json!({"summary": "edges", "states": n, "edges_in_file": t.edges, "edges": st.0, "probes": st.1, "calls": st.2, "gets": st.3,
         "nontrivial": st.4, "max_path": st.5, "complete": complete, "keys": t.keys.len(), "mismatches": mism_count.load(Ordering::SeqCst),
-        "first": *mism.lock().unwrap(), "sample": {"limit": limit, "tl": tl, "unit": unit, "ops": sample}}));
+        "first": *mism.lock().unwrap(), "sampled": Sample::json(std::mem::take(&mut *all_samples.lock().unwrap())),
+        "sample": {"limit": limit, "tl": tl, "unit": unit, "ops": sample}}));
 }
 
 // ------------------------------------------------------------------------------------------------
@@ -518,9 +555,14 @@ fn cmd_lockstep(args: &[String]) {
     let mism: Mutex<Vec<Value>> = Mutex::new(vec![]);
     let mism_count = AtomicU64::new(0);
     let samples: Mutex<Vec<Value>> = Mutex::new(vec![]);
+    let all_samples: Mutex<Vec<Sample>> = Mutex::new(vec![]);
     std::thread::scope(|sc| {
-        for _ in 0..threads {
-            sc.spawn(|| {
+        for thx in 0..threads {
+            let all_samples = &all_samples;
+            let (t, alpha, nxt, rid, res, look, keys, set_key, next_item, totals, visited, mism, mism_count, samples) =
+                (&t, &alpha, &nxt, &rid, &res, &look, &keys, &set_key, &next_item, &totals, &visited, &mism, &mism_count, &samples);
+            sc.spawn(move || {
+                let mut sample = Sample::new(2000 / threads.max(1), seed_from_env() ^ thx as u64);
                 let mut tot = [0u64; 6];
                 let mut vis = vec![false; n];
                 let mut word = vec![0usize; len];
@@ -602,15 +644,19 @@ fn cmd_lockstep(args: &[String]) {
                                 }
                             }
                             if let Some((what, exp, got)) = bad {
-                                if mism_count.fetch_add(1, Ordering::SeqCst) < 10 {
-                                    // re-derive the ids for the report
-                                    let mut ops = vec![];
-                                    let mut st = t.init as usize;
-                                    for j in 0..=i {
-                                        let ix = st * a + word[j];
-                                        ops.push(OpA { id: rid[ix], ..alpha[word[j]] });
-                                        st = nxt[ix] as usize;
+                                // the whole word with the ids of the graph, for the report and for the property judge
+                                let mut ops = vec![];
+                                let mut st = t.init as usize;
+                                for j in 0..len {
+                                    let ix = st * a + word[j];
+                                    if nxt[ix] == NONE {
+                                        break;
                                     }
+                                    ops.push(OpA { id: rid[ix], ..alpha[word[j]] });
+                                    st = nxt[ix] as usize;
+                                }
+                                sample.offer(&ops);
+                                if mism_count.fetch_add(1, Ordering::SeqCst) < 10 {
                                     mism.lock().unwrap().push(Mismatch { what, seq: ops, step: i, exp, got }.json(limit, tl, unit));
                                 }
                                 break;
@@ -631,6 +677,7 @@ fn cmd_lockstep(args: &[String]) {
                         }
                     }
                 }
+                all_samples.lock().unwrap().push(sample);
                 let mut g = totals.lock().unwrap();
                 for i in 0..6 {
                     g[i] += tot[i];
@@ -648,16 +695,84 @@ fn cmd_lockstep(args: &[String]) {
     let v = visited.lock().unwrap().iter().filter(|x| **x).count();
     out_line(&json!({"summary": "lockstep", "alphabet": a, "len": len, "sequences": g[0], "calls": g[1], "gets": g[2], "prefixes": g[3],
         "nontrivial": g[4], "graph_states": n, "graph_edges": t.edges, "states_visited": v, "mismatches": mism_count.load(Ordering::SeqCst),
-        "first": *mism.lock().unwrap(), "samples": *samples.lock().unwrap()}));
+        "first": *mism.lock().unwrap(), "sampled": Sample::json(std::mem::take(&mut *all_samples.lock().unwrap())),
+        "samples": *samples.lock().unwrap()}));
 }
 
 // ------------------------------------------------------------------------------------------------
 // replay of one stored case
 // ------------------------------------------------------------------------------------------------
+/// The observed history of operation sequences on the real Cache in the log format of `random`:
+/// after every step the key just stored is looked up first, then every other key used so far.
+fn runseq_trace(limit: usize, tl: usize, unit: usize) {
+    for line in stdin_lines() {
+        let v: Value = match serde_json::from_str(&line) {
+            Ok(v) => v,
+            Err(_) => continue,
+        };
+        let ops: Vec<OpA> = v.as_array().unwrap().iter().map(OpA::from_json).collect();
+        let mut cache = make_cache(limit * unit, tl);
+        let mut vnow = BASE;
+        set_vclock(vnow);
+        let mut keys: Vec<(u8, u8)> = vec![];
+        let mut seq = 0u64;
+        out_line(&event("reset", 0, 0, "", 0, 0, 0, "runseq", 0, 0, None, limit * unit, tl, 1));
+        let mut lookup = |cache: &Cache, r: u8, h: u8, vnow: i64, seq: &mut u64| {
+            *seq += 1;
+            let route = ROUTES[r as usize];
+            let got = catch_unwind(AssertUnwindSafe(|| {
+                cache.get(route, h as usize).map(|i| (i.data.len(), h31(&i.data), i.mime_type.to_string(), i.cache_time as i64, i.route != route || i.host != h as usize))
+            }));
+            match got {
+                Ok(res) => {
+                    let wrong = res.as_ref().map(|x| x.4).unwrap_or(false);
+                    out_line(&event("get", *seq, 0, route, h as usize, 0, 0, "", vnow, vnow, res.map(|x| (x.0, x.1, x.2, x.3)), limit * unit, tl, wrong as u64))
+                }
+                // a panicking lookup is reported as a hit that carries a wrong key: never acceptable
+                Err(_) => out_line(&event("get", *seq, 0, route, h as usize, 0, 0, "", vnow, vnow, Some((0, 0, "panic".into(), vnow)), limit * unit, tl, 1)),
+            }
+        };
+        for op in &ops {
+            match op.op {
+                0 => {
+                    let data = vec![op.id; op.size as usize * unit];
+                    let (size, hash) = (data.len(), h31(&data));
+                    let mime = mime_of(op.id as u32);
+                    let route = ROUTES[op.route as usize];
+                    let c = &mut cache;
+                    // (a panicking set is logged like any other set: the lookups that follow tell)
+                    let _ = catch_unwind(AssertUnwindSafe(move || c.set(route, op.host as usize, data, mime)));
+                    seq += 1;
+                    out_line(&event("set", seq, 0, route, op.host as usize, size, hash, &mime.to_string(), vnow, vnow, None, limit * unit, tl, 0));
+                    keys.retain(|k| *k != (op.route, op.host));
+                    keys.insert(0, (op.route, op.host));
+                }
+                1 => {
+                    lookup(&cache, op.route, op.host, vnow, &mut seq);
+                    if !keys.contains(&(op.route, op.host)) {
+                        keys.push((op.route, op.host));
+                    }
+                    continue;
+                }
+                _ => {
+                    vnow += op.d as i64;
+                    set_vclock(vnow);
+                }
+            }
+            for (r, h) in keys.clone() {
+                lookup(&cache, r, h, vnow, &mut seq);
+            }
+        }
+    }
+}
+
 fn cmd_runseq(args: &[String]) {
     let limit: usize = args[0].parse().unwrap();
     let tl: usize = args[1].parse().unwrap();
     let unit: usize = args[2].parse().unwrap();
+    if args.len() > 3 && args[3] == "trace" {
+        return runseq_trace(limit, tl, unit);
+    }
     let text: String = stdin_lines().collect::<Vec<_>>().join("\n");
     let v: Value = serde_json::from_str(&text).unwrap();
     let ops: Vec<OpA> = v.as_array().unwrap().iter().map(OpA::from_json).collect();
